@@ -110,3 +110,6 @@ func AdvanceClock(d int64)
 // ForkGoroutineOrder explores every order in which the runnable goroutines of one request are run
 // (together with DeferGoroutines(true): every completion order of a fan-out).
 func ForkGoroutineOrder(on bool)
+
+// Rec returns what the transport recorders (tls/x509/grpc/net models) saw; symbolic executor only.
+func Rec(key string) string
